@@ -480,7 +480,12 @@ func runCheck(P *Program, DB *ContractDB, prop, tier string, only string) *check
 			if o.MustFail && to > 6 {
 				to = 6 // vacuity probes are expected NOT to be refutable: do not wait for the full budget
 			}
-			r := Solve(o.Script(), dir, fmt.Sprintf("o%04d", i), to, tier == "thorough" && !o.MustFail)
+			var r SolverResult
+			if o.MustFail {
+				r = SolveProbe(o.Script(), dir, fmt.Sprintf("o%04d", i), 3)
+			} else {
+				r = Solve(o.Script(), dir, fmt.Sprintf("o%04d", i), to, tier == "thorough")
+			}
 			o.Result = &r
 			rec := oblRecord{Name: o.Name, Kind: o.Kind, Func: o.Func, Clause: o.Clause, Pos: o.Pos, Verdict: r.Verdict, Solver: r.Solver, TimeS: r.TimeS, Raw: r.Raw, Confirm: r.Confirm, Claimed: o.Claimed}
 			switch {
